@@ -5,7 +5,7 @@ from __future__ import annotations
 import ast
 
 from ..classify import SAME
-from ..engine import Ctx, Finding, RuleResult, cfg_str
+from ..engine import Ctx, Finding, RuleResult, cfg_str, trace_of
 from ..loader import AnalysisError, dotted_name
 from .common import emissions, mk_finding, mux_emissions, summary
 from .mx import classify_sites
@@ -192,4 +192,39 @@ def rule_pr2(ctx: Ctx) -> RuleResult:
                     "PR-2", spec, None, cfg, p, "this plain operator emits items when its source completes (%s) and is not one of the operators "
                     "whose results depend on the end of the stream" % summary(p), node=m.eff.node, extra="plain-emits-at-completion"))
     r.require_instances(30)
+    return r
+
+def rule_pr4(ctx: Ctx) -> RuleResult:
+    """PR-4: from_iterable hands an element on before it asks the iterable for the next one.  Pulling element k+1 first (a look-ahead
+    'to know the end in advance') delays everything computed from element k until the source produces k+1: on a lazy or blocking
+    feed the result of an element waits for the following element."""
+    r = RuleResult("PR-4", "from_iterable emits each element before it pulls the next one from the iterable (no look-ahead)")
+    rel = "rxsci/operators/from_iterable.py"
+    m = ctx.program.by_relpath.get(rel)
+    if m is None:
+        raise AnalysisError("%s not found" % rel)
+    fn = next((f for f in ast.walk(m.tree) if isinstance(f, ast.FunctionDef) and f.name == "from_iterable"), None)
+    acts = [f for f in ast.walk(fn) if isinstance(f, ast.FunctionDef) and any(
+        isinstance(c, ast.Call) and isinstance(c.func, ast.Name) and c.func.id == "next" and m.enclosing_function(c) is f for c in ast.walk(f))] if fn is not None else []
+    if len(acts) != 1:
+        raise AnalysisError("from_iterable: expected one inner function that pulls from the iterator, found %d" % len(acts))
+    act = acts[0]
+    r.instances += 1
+    for p in ctx.fn_paths(m, act, max_iter=2):
+        r.paths += 1
+        pending = None
+        bad = None
+        for e in p.trace:
+            if e.k == "call" and e.func == ("builtin", "next") and not e.d.get("raised"):
+                if pending is not None:
+                    bad = (pending, e)
+                    break
+                pending = e
+            elif e.k == "emit" and e.method == "on_next":
+                pending = None
+        r.ob(bad is None, lambda bad=bad, p=p: Finding(
+            "PR-4", "%s::from_iterable.%s{look-ahead}" % (rel, act.name), bad[1].where(),
+            "the iterable is asked for another element (%s) while the element pulled before (%s) has not been emitted yet: every element, and "
+            "everything computed from it, reaches the subscriber one source element late" % (bad[1].brief(), bad[0].brief()), trace_of(p)))
+    r.require_instances(1)
     return r
